@@ -108,6 +108,30 @@ def run(chk):
     tp = gen.two_pool_scenarios(rng, 40 if chk.tier == 'quick' else 600)
     run_scenarios(chk, 'two pools at work in one process: every call of either terminates', tp, {'C03'}, nontrivial=lambda sc, o: True,
                   dist=lambda sc, o: {'other_lifespan': sc['ops'][0]['lifespan'], 'first_pool_stopped_meanwhile': any(x['op'] in ('stop_and_join', 'terminate') for x in sc['ops'])})
+    # apply submissions that run into their time limit or whose worker_init fails, then (or meanwhile) more work on the same pool with a
+    # progress bar or with several jobs pending: everything that was asked for comes to an end
+    ap = []
+    for _ in range(40 if chk.tier == 'quick' else 600):
+        nj = rng.choice([1, 2, 3])
+        if rng.random() < .5:
+            first = {'op': 'apply_batch', 'tasks': [{'idx': i} for i in range(rng.randint(1, 3))], 'task_timeout': 0.2, 'get_timeout': 30,
+                     'dur': {'kind': 'map', 'map': {'0': rng.choice([5.0, 600.0])}, 'default': 0.01}}
+            later = {'op': rng.choice(['map', 'imap_unordered', 'imap']), 'n': rng.randint(2, 8), 'chunk_size': 1, 'progress_bar': True}
+            ap.append({'seed': rng.randint(0, 10 ** 6), 'pool': {'n_jobs': nj, 'start_method': 'fork', **({'keep_alive': True} if rng.random() < .5 else {})}, 'ops': [first, later]})
+        else:
+            k = rng.randint(2, 6)
+            ap.append({'seed': rng.randint(0, 10 ** 6), 'pool': {'n_jobs': nj, 'start_method': rng.choice(['fork', 'threading'])}, 'pending_apply': True,
+                       'ops': [{'op': 'apply_batch', 'tasks': [{'idx': i} for i in range(k)], 'init': True, 'init_dur': rng.choice([0.0, 0.3]),
+                                'fail': {'init': 'all', 'exc': rng.choice(['ValueError', 'Custom'])}, 'dur': {'kind': 'map', 'map': {}, 'default': 0.01}, 'get_timeout': 30}]})
+    aobs = run_scenarios(chk, 'apply submissions that time out or whose worker_init fails, with more work around them (DetSim)', ap, {'C03'}, nontrivial=lambda sc, o: True,
+                         dist=lambda sc, o: {'kind': 'init fails, several pending' if sc.get('pending_apply') else 'time limit, then a bar'})
+    for sc, o in zip(ap, aobs):
+        if o.get('harness_error') or o.get('stuck') or not sc.get('pending_apply') or not o.get('ops'):
+            continue
+        # (a result that is still not there after 30 virtual seconds is a call that does not end)
+        late = [a[0] for a in o['ops'][0].get('apply', []) if a[1] == 'raise' and a[2] == 'TimeoutError']
+        if late:
+            chk.violation('terminates', {'scenario': sc}, {'results_never_ready': late}, 'every submitted job gets its outcome', input_class='apply_pending_forever')
     from harness import realproc
     realproc.pipe_suite(chk, quick=chk.tier != 'thorough')
     chk.assumptions += ['pipe capacity and feeder threads of multiprocessing.Queue are not modelled (DetSim queues are unbounded): payloads above the pipe capacity are explored on real processes (four probes in the quick tier, a matrix in the thorough tier); OS scheduling fairness is assumed',
